@@ -115,6 +115,9 @@ def table(L):
             for s in SEEDS:
                 t["|".join(prog) + f"@{s}"] = run_program(sg, prog, s)
         t["fixed"] = fixed_program(sg, 5)
+        from synapgrad.nn.utils import data as D
+        labs = ["cat", "dog", "bird", "cat", "emu", "dog", "ant", "bird"]
+        t["fixed_onehot_strings"] = [_dig([np.asarray(D.one_hot_encode(np.array(labs)))]), _dig([np.asarray(D.one_hot_encode(labs))])]
     return t
 
 def worker_main():
@@ -235,7 +238,7 @@ def run(tier, seed):
         diff = [k for k in base if t.get(k) != base[k]]
         if diff:
             k = diff[0]
-            kind = "fixed-program:depends-on-process" if k == "fixed" else f"fixed-program:letter-{k.split('@')[0].split('|')[-1]}-differs-across-processes"
+            kind = "fixed-program:depends-on-process" if k.startswith("fixed") else f"fixed-program:letter-{k.split('@')[0].split('|')[-1]}-differs-across-processes"
             viols.append({"kind": kind, "detail": f"{len(diff)} of {len(base)} digests differ in a fresh interpreter (PYTHONHASHSEED={hs}, junk allocations={junk}); first: {k}",
                           "case": {"kind": "process", "prog": k, "hashseed": hs, "junk": junk}})
     if len(set(base["fixed"])) != 1:
